@@ -42,6 +42,16 @@ ASSUMPTIONS = [
 GATES = {'servo_timeout': ('SR', (2, 6, 0)), 'queryVoltage': ('QC', (2, 2, 3)),
          'query_nickname': ('QT', (2, 5, 5)), 'write_nickname': ('ST', (2, 5, 5)), 'reboot': ('RB', (2, 5, 5))}
 
+# helpers of the legacy layer that document no gated command: driven next to the gated ones (wave 8)
+BYSTANDERS = {'sendDisableMotors': lambda r: [], 'sendEnableMotors': lambda r: [r.choice([0, 1, 2, 5])],
+              'QueryPenUp': lambda r: [], 'QueryPRGButton': lambda r: [],
+              'sendPenDown': lambda r: [r.choice([0, 150])], 'sendPenUp': lambda r: [r.choice([0, 150])],
+              'TogglePen': lambda r: [], 'setPenDownPos': lambda r: [r.choice([12000, 16000])],
+              'setPenUpPos': lambda r: [r.choice([18000, 22000])], 'query_enable_motors': lambda r: [],
+              'query_steps': lambda r: [], 'doTimedPause': lambda r: [r.choice([1, 30])],
+              'doXYMove': lambda r: [r.choice([0, 10]), r.choice([-10, 5]), r.choice([10, 50])],
+              'queryEBBLV': lambda r: [], 'setEBBLV': lambda r: [r.choice([0, 50])]}
+
 COMPONENTS = [0, 1, 2, 3, 4, 5, 6, 9, 10, 11, 25, 99, 100]
 
 
@@ -231,6 +241,14 @@ def check(scn, hist):
                 elif not sent and probe_ok and fw >= gate and rec['exc'] is None:
                     out.append(V(PROP, 'gate_blocks_supported', fn, oid,
                                  '%s not sent to firmware %r (>= %r): wire %r' % (name, spec['fw'], gate, reqs)))
+            elif mod == 'ebb_motion' and fn in BYSTANDERS:
+                # a gated command reaches the board "only when the board reports at least that version" - also
+                # when it is another helper that transmits it (no helper of the legacy layer documents one)
+                reqs = [r.strip() for r in rec['wire'].get(port, '').split('\r') if r.strip()]
+                for name, gate in sorted(set(GATES.values())):
+                    if fw < gate and any(r.upper().split(',')[0] == name for r in reqs):
+                        out.append(V(PROP, 'gate', fn, oid, '%s sent to firmware %r (< %r) by %s: wire %r'
+                                     % (name, spec['fw'], gate, fn, reqs)))
     # device-side invariant: an unsupported device gets nothing but version probes from the EBB3 layer
     op_obj = {rec['id']: rec['op'].get('obj') for rec in hist.ops if rec['op']['op'] == 'call'}
     for dev in hist.all_devices:
@@ -618,6 +636,9 @@ def gen_gates(rng, idx):
         s = rng.randrange(nb)
         fn = rng.choice(list(GATES))
         ops.append(gate_call(rng, fn, s))
+        if rng.random() < 0.3:
+            by = rng.choice(sorted(BYSTANDERS))
+            ops.append(lcall('ebb_motion.' + by, [{'slot': s}] + BYSTANDERS[by](rng)))
         if fn == 'reboot':
             ops.append({'op': 'env', 'what': 'quiesce'})
         if swap and rng.random() < 0.3:
